@@ -102,6 +102,26 @@ def family():
     for order in ([ovi, ovf, ovv], [ovv, ovf, ovi], [ovf, ovi, ovv]):
         out.append((A.prog([], order + [ovu, entry([("n", INT)], INT, [A.decl("x", FLOAT, A.lit_f(5, 1)), A.decl("v", A.vec("float", 2), A.cons(A.vec("float", 2), [L(1), L(2)])),
                                                                        A.ret(B("+", B("+", C("ov", [V("n")]), B("*", C("ov", [V("x")]), L(3))), B("+", B("*", C("ov", [V("v")]), L(7)), C("ou", [V("n")]))))])]), ints(0, 5)))
+    # overloads that differ in the number of parameters: a call reaches the one whose parameter count matches
+    sc1 = A.func("sc", [("a", INT)], FLOAT, A.block([A.ret(B("*", V("a"), L(10)))]))
+    sc2 = A.func("sc", [("a", INT), ("k", FLOAT)], FLOAT, A.block([A.ret(B("*", V("a"), V("k")))]))
+    sc3 = A.func("sc", [("a", INT), ("k", FLOAT), ("z", INT)], FLOAT, A.block([A.ret(B("+", B("*", V("a"), V("k")), V("z")))]))
+    for order in ([sc1, sc2, sc3], [sc3, sc2, sc1], [sc2, sc1, sc3]):
+        out.append((A.prog([], order + [entry([("n", INT)], FLOAT, [
+            A.decl("m", INT, L(4)), A.decl("r1", FLOAT, C("sc", [V("n")])), A.decl("r2", FLOAT, C("sc", [V("n"), V("m")])),
+            A.decl("r3", FLOAT, C("sc", [V("n"), V("m"), L(7)])), A.decl("r4", FLOAT, C("sc", [V("n"), A.inc("m", "+", False)])),
+            A.ret(B("+", B("+", V("r1"), B("*", V("r2"), L(100))), B("+", B("*", V("r3"), L(10000)), B("+", V("m"), V("r4")))))])]), ints(1, 3)))
+    # a call whose arguments are all literals, executed repeatedly, to a callee that overwrites its parameters:
+    # every activation starts from the literal values
+    bump = A.func("bump", [("q", INT), ("w", FLOAT)], FLOAT, A.block([A.estmt(A.asg(V("q"), B("+", V("q"), L(1)))), A.estmt(A.casg("*", V("w"), L(2))), A.ret(B("+", V("q"), V("w")))]))
+    out.append((A.prog([], [bump, entry([("n", INT)], FLOAT, [
+        A.decl("acc", FLOAT, L(0)), A.for_(A.decl("i", INT, L(0)), B("<", V("i"), V("n")), A.inc("i", "+", False),
+                                           A.block([A.estmt(A.casg("+", V("acc"), C("bump", [L(5), A.lit_f(3, 1)])))])),
+        A.estmt(A.casg("+", V("acc"), C("bump", [L(5), A.lit_f(3, 1)]))), A.ret(V("acc"))])]), ints(0, 1, 3)))
+    cd = A.func("cd", [("q", INT)], INT, A.block([A.decl("c", INT, L(0)), A.while_(B(">", V("q"), L(0)), A.block([A.estmt(A.asg(V("q"), B("-", V("q"), L(1)))), A.estmt(A.casg("+", V("c"), L(1)))])), A.ret(V("c"))]))
+    out.append((A.prog([], [cd, entry([("n", INT)], INT, [
+        A.decl("acc", INT, L(0)), A.decl("i", INT, L(0)),
+        A.while_(B("<", V("i"), V("n")), A.block([A.estmt(A.casg("+", V("acc"), C("cd", [L(3)]))), A.estmt(A.asg(V("i"), B("+", V("i"), L(1))))])), A.ret(V("acc"))])]), ints(1, 2, 4)))
     return out
 
 
